@@ -300,4 +300,272 @@ example : ∃ g, upgrade [s "Cat", s "Dog"] [(s "cat", s "Cat"), (s "dog", s "Do
 example : look (s "Cat") (writeMapping (s "kind") [(s "cat", s "Cat"), (s "dog", s "Dog"), (s "kitty", s "Cat")] []) = some ⟨s "kind", s "kitty"⟩ := by
   decide +kernel
 
+-- ------------------------------------------------------------------------------------------
+-- use sites: positions, wrappers, `untagged`
+
+/-- serde `untagged` = the FIRST variant (in declaration order) whose shape accepts the document -/
+theorem untagged_first_accepting (acc : Str → Bool) (tys : List Str) :
+    firstAccepting acc tys = tys.find? acc := by
+  induction tys with
+  | nil => rfl
+  | cons t r ih =>
+    simp only [firstAccepting, List.find?]
+    cases h : acc t <;> simp [ih]
+
+/-- … hence the selected variant accepts and every variant before it refuses -/
+theorem untagged_first_accepting_spec (acc : Str → Bool) (tys : List Str) (t : Str)
+    (h : firstAccepting acc tys = some t) :
+    acc t = true ∧ ∃ pre post, tys = pre ++ t :: post ∧ ∀ x ∈ pre, acc x = false := by
+  rw [untagged_first_accepting] at h
+  obtain ⟨h1, pre, post, h2, h3⟩ := List.find?_eq_some_iff_append.mp h
+  exact ⟨h1, pre, post, h2, fun x hx => by simpa using h3 x hx⟩
+
+/-- a use site typed by an `untagged` enum decodes by shape only: the tag plays no part -/
+theorem untagged_site_decode (fx : Facts) (shapes : List ShapeF) (fuel : Nat) (st : SiteTy) (e : EnumF) (doc : Doc)
+    (hv : st.value = false) (he : st.en = some e) (hu : e.untagged = true) :
+    siteDecode fx shapes fuel st doc =
+      (match e.types.find? (shapeAccepts fx shapes doc) with | some t => .member t | none => .rejected) := by
+  unfold siteDecode
+  simp only [hv, he, hu, if_true, Bool.false_eq_true, if_false, untagged_first_accepting]
+  rfl
+
+private def wStruct (n : String) : StructF := { name := s n, deny := false, fields := [(s ("f" ++ n.toLower), .plain), (s "kind", .plain)] }
+private def wFacts : Facts := { cache := [], effective := [], parents := [], reach := none, enums := [], structs := [wStruct "User", wStruct "Team"] }
+private def wShapes : List ShapeF := [{ name := s "User", req := [s "kind"], allowed := [] }, { name := s "Team", req := [s "kind"], allowed := [] }]
+private def wUntagged : SiteTy := { vec := 0, value := false, en := some { name := [], untagged := true, tag := [], arms := [], fallback := none, types := [s "User", s "Team"] } }
+private def wTagged : SiteTy := { vec := 0, value := false, en := some { name := [], untagged := false, tag := s "kind", arms := [(s "team", s "Team"), (s "user", s "User")], fallback := none, types := [s "Team", s "User"] } }
+private def teamDoc (tag : String) : Doc := { tagProp := s "kind", tag := some (s tag), keys := [s "fteam", s "kind"] }
+
+/-- two members that accept each other's documents (only the tag is required): the tag names the SECOND member,
+the `untagged` enum yields the FIRST, and an unmapped tag is accepted; the tag-dispatching enum gets both right -/
+theorem overlap_wrong_member :
+    siteDecode wFacts wShapes 4 wUntagged (teamDoc "team") = .member (s "User") ∧
+    siteDecode wFacts wShapes 4 wUntagged (teamDoc "no-such-tag") = .member (s "User") ∧
+    siteDecode wFacts wShapes 4 wTagged (teamDoc "team") = .member (s "Team") ∧
+    siteDecode wFacts wShapes 4 wTagged (teamDoc "no-such-tag") = .rejected := by decide +kernel
+
+/-- an enum-typed tag repairs `untagged`: the first member refuses the other member's tag -/
+theorem overlap_enum_tag_repairs :
+    siteDecode wFacts [{ name := s "User", req := [s "kind"], allowed := [(s "kind", [s "user", s "user2"])] },
+                       { name := s "Team", req := [s "kind"], allowed := [(s "kind", [s "team", s "team2"])] }] 4 wUntagged (teamDoc "team") = .member (s "Team") := by
+  decide +kernel
+
+theorem resolveInline_own (fps : List (List Str × Str)) (reg : UReg) (u u' : Sch)
+    (h : (resolveInline fps reg u).1 = .own u') : u' = u := by
+  unfold resolveInline at h
+  dsimp only at h
+  split at h
+  · split at h
+    · cases h
+    · split at h
+      · cases h
+      · exact (Origin.own.inj h).symm
+  · exact (Origin.own.inj h).symm
+
+theorem resolveTypeInline_not_own (fps : List (List Str × Str)) (u u' : Sch) : resolveTypeInline fps u ≠ .own u' := by
+  unfold resolveTypeInline
+  intro h
+  split at h
+  · cases h
+  · dsimp only at h
+    split at h
+    · split at h <;> cases h
+    · cases h
+
+/-- well-formed spelling: only a wrapper can carry an outer discriminator, and the one spelling whose flattening
+loses it (`[array-of-union, null]` with the discriminator on the wrapper) is excluded (finding F14-10) -/
+def SiteWF (s : SiteSch) : Prop :=
+  (s.wrap = none → s.outerDisc = none) ∧ (s.arr = true → s.wrap.isSome = true → s.u.disc.isSome = true ∨ s.outerDisc = none)
+
+theorem siteCore_eq_u (s : SiteSch) (h : s.u.disc.isSome = true ∨ s.outerDisc = none) : siteCore s = s.u := by
+  cases s with
+  | mk a w o u =>
+    cases u with
+    | mk props oneOf anyOf allOf disc deny =>
+      cases disc with
+      | some d => rfl
+      | none =>
+        cases h with
+        | inl h => cases h
+        | inr h => simp only at h; subst h; rfl
+
+/-- whenever a site's type is converted from its own union, that union is the declared one (`siteCore`),
+whatever the position and the wrapper spelling -/
+theorem own_is_core (fps : List (List Str × Str)) (reg : UReg) (pos : Pos) (s : SiteSch) (u : Sch)
+    (hwf : SiteWF s) (h : (route fps reg pos s).1.1 = .own u) : u = siteCore s := by
+  obtain ⟨hw, ha⟩ := hwf
+  have top : ∀ u, (topRoute fps reg s).1.1 = .own u → u = siteCore s := by
+    intro u h
+    unfold topRoute at h
+    cases hwr : s.wrap with
+    | some b =>
+      rw [hwr] at h
+      cases har : s.arr with
+      | true =>
+        simp only [har, if_true] at h
+        have := ha har (by rw [hwr]; rfl)
+        rw [siteCore_eq_u s this]; exact (Origin.own.inj h).symm
+      | false =>
+        simp only [har, Bool.false_eq_true, if_false] at h
+        exact (Origin.own.inj h).symm
+    | none =>
+      rw [hwr] at h
+      have hc : siteCore s = s.u := siteCore_eq_u s (Or.inr (hw hwr))
+      cases har : s.arr with
+      | true =>
+        simp only [har, if_true] at h
+        rw [hc]; exact resolveInline_own fps reg s.u u h
+      | false =>
+        simp only [har, Bool.false_eq_true, if_false] at h
+        rw [hc]; exact (Origin.own.inj h).symm
+  cases pos with
+  | named => exact top u h
+  | body => exact top u h
+  | field =>
+    simp only [route] at h
+    unfold fieldRoute at h
+    cases hwr : s.wrap with
+    | some b => rw [hwr] at h; exact absurd h (resolveTypeInline_not_own fps s.u u)
+    | none =>
+      rw [hwr] at h
+      rw [siteCore_eq_u s (Or.inr (hw hwr))]; exact resolveInline_own fps reg s.u u h
+  | resp =>
+    simp only [route] at h
+    unfold respRoute at h
+    split at h
+    · exact absurd h (resolveTypeInline_not_own fps s.u u)
+    · exact top u h
+
+/-- wrappers and positions preserve dispatch: the model's dispatch function `dispatchOf` has no position argument,
+and any two positions / registry states at which the SAME spelling is converted from its own union get the SAME
+tag-dispatching enum, namely `dispatchOf` of the declared union -/
+theorem dispatch_position_independent (e : Env) (fps : List (List Str × Str)) (reg reg' : UReg) (pos pos' : Pos)
+    (s : SiteSch) (u u' : Sch) (hwf : SiteWF s)
+    (h : (route fps reg pos s).1.1 = .own u) (h' : (route fps reg' pos' s).1.1 = .own u') :
+    originEnum e (route fps reg pos s).1.1 = some (dispatchOf e.cache (siteCore s)) ∧
+    originEnum e (route fps reg pos s).1.1 = originEnum e (route fps reg' pos' s).1.1 := by
+  have h1 := own_is_core fps reg pos s u hwf h
+  have h2 := own_is_core fps reg' pos' s u' hwf h'
+  rw [h, h', h1, h2]
+  exact ⟨rfl, rfl⟩
+
+/-- … and that enum dispatches every tag of an explicit mapping to the member the mapping names (via `C14_dispatch`'s
+ingredients): stated for the arms -/
+theorem site_dispatch_arms (cache : List (Str × DM)) (core : Sch) (d : Disc) (m : List (Str × Str)) (g : List (Str × List Str))
+    (hd : core.disc = some d) (hm : d.mapping = some m) (hu : upgrade (unionRefs core) m = some g) :
+    (dispatchOf cache core).untagged = false ∧ (dispatchOf cache core).arms = armsOf g ∧ (dispatchOf cache core).tag = d.prop := by
+  unfold dispatchOf unionEnum
+  have he : effective cache (some d) (unionVariants core) = some m := by simp [effective, hm]
+  have hu' : upgrade (if core.oneOf.isEmpty then core.anyOf else core.oneOf) m = some g := hu
+  simp only [hd, he, hu']
+  exact ⟨trivial, trivial, trivial⟩
+
+/-- soundness of the use-site judge w.r.t. `Sem`: if it reports nothing, then at that site every document of a mapped
+member carrying a mapped tag decodes to exactly that member and re-encodes the same tag, and a document with an unmapped
+tag is rejected -/
+theorem judgeSite_sound (sp : Spec) (fx : Facts) (shapes : List ShapeF) (site : Site) (st : SiteTy) (cls : Option Known)
+    (d : Disc) (m : List (Str × Str))
+    (hd : (siteCore site.s).disc = some d) (hm : intended sp.schemas (siteCore site.s) = some m)
+    (hwf : m.all (fun x => (unionRefs (siteCore site.s)).contains x.2 && (look x.2 sp.schemas).isSome) = true)
+    (hJ : judgeSite sp fx shapes site st cls = []) :
+    st.vec = (if site.s.arr then 1 else 0) ∧
+    (∀ x ∈ m, isUnionSch sp.schemas x.2 = false → permits (envOf sp) d.prop x.1 x.2 = true →
+      siteDecode fx shapes (sp.schemas.length + 2) st (validDoc (envOf sp) d.prop x.1 x.2) = .member x.2 ∧
+      ∀ sf, findStruct fx x.2 = some sf → encodeTag sf d.prop (some x.1) = some x.1) ∧
+    (∀ c ∈ unionRefs (siteCore site.s), isUnionSch sp.schemas c = false →
+      siteDecode fx shapes (sp.schemas.length + 2) st (validDoc (envOf sp) d.prop unmappedProbe c) = .rejected) := by
+  unfold judgeSite at hJ
+  simp only [hd, hm, hwf, Bool.not_true, Bool.false_eq_true, if_false] at hJ
+  by_cases hv : st.vec = (if site.s.arr then 1 else 0)
+  · simp only [hv, ne_eq, not_true_eq_false, if_false] at hJ
+    obtain ⟨h12, h3⟩ := List.append_eq_nil_iff.mp hJ
+    obtain ⟨h1, _⟩ := List.append_eq_nil_iff.mp h12
+    refine ⟨hv, ?_, ?_⟩
+    · intro x hx hnu hp
+      have := List.flatMap_eq_nil_iff.mp h1 x hx
+      simp only [hnu, hp, Bool.false_eq_true, if_false, Bool.not_true] at this
+      cases hdec : siteDecode fx shapes (sp.schemas.length + 2) st (validDoc (envOf sp) d.prop x.1 x.2) with
+      | untyped => rw [hdec] at this; cases this
+      | rejected => rw [hdec] at this; cases this
+      | member ty =>
+        rw [hdec] at this
+        by_cases hty : ty = x.2
+        · subst hty
+          refine ⟨rfl, ?_⟩
+          intro sf hsf
+          simp only [ne_eq, not_true_eq_false, if_false, hsf] at this
+          by_cases henc : encodeTag sf d.prop (some x.1) = some x.1
+          · exact henc
+          · simp [henc] at this
+        · simp [hty] at this
+    · intro c hc hnu
+      have := List.flatMap_eq_nil_iff.mp h3 c hc
+      simp only [hnu, Bool.false_eq_true, if_false] at this
+      cases hdec : siteDecode fx shapes (sp.schemas.length + 2) st (validDoc (envOf sp) d.prop unmappedProbe c) with
+      | rejected => rfl
+      | untyped => rw [hdec] at this; cases this
+      | member ty => rw [hdec] at this; cases this
+  · simp [hv] at hJ
+
+-- concrete witnesses for the use-site classes on the whole model (`FSites`) + judge
+
+private def uSch (members : List String) (mapping : Option (List (String × String))) (one : Bool := true) : Sch :=
+  { oneOf := if one then members.map s else [], anyOf := if one then [] else members.map s,
+    disc := some { prop := s "kind", mapping := mapping.map (fun m => mkMap (m.map (fun e => (s e.1, s e.2)))) } }
+private def plainU (members : List String) : Sch := { oneOf := members.map s }
+private def utMap : Option (List (String × String)) := some [("user", "User"), ("team", "Team")]
+private def holder (n : String) : Str × Sch := (s n, { props := [(s "f", {})] })
+private def wSiteSpec (extra : List (Str × Sch)) : Spec :=
+  { schemas := mkMap ([leaf "User" plainTag, leaf "Team" plainTag] ++ extra), roots := [s "User", s "Team"] ++ extra.map (·.1), all := false }
+
+/-- model-side verdict of one document: (origin, failures are all known, classes) -/
+private def siteVerdict (sp : Spec) (sites : List Site) : List (Origin × Bool × List Known) :=
+  (FSites sp sites).map (fun x =>
+    let fs := judgeSite sp (F sp) [{ name := s "User", req := [s "kind"], allowed := [] }, { name := s "Team", req := [s "kind"], allowed := [] }] x.1 x.2.2 (siteClass sp x.1 x.2.1)
+    (x.2.1, fs.isEmpty, knownOf fs))
+
+/-- an inline discriminated union at a property, with explicit mapping and no neighbour: the property holds,
+whether a plain inline twin is converted BEFORE it or after it (what regression m3 breaks) -/
+theorem site_inline_good :
+    siteVerdict (wSiteSpec [holder "Aaa", holder "Mid"])
+      [{ id := s "n", pos := .field, holder := s "Aaa", field := s "f", s := { u := plainU ["User", "Team"] } },
+       { id := s "m", pos := .field, holder := s "Mid", field := s "f", s := { u := uSch ["User", "Team"] utMap } }]
+    = [(.own (plainU ["User", "Team"]), true, []), (.own (uSch ["User", "Team"] utMap), true, [])] := by decide +kernel
+
+/-- the nullable wrapper of a named component keeps the discriminator, on the inner or on the outer schema (what regression m4 breaks) -/
+theorem site_named_wrapper_good :
+    siteVerdict (wSiteSpec [(s "Maybe", {})])
+      [{ id := s "m", pos := .named, holder := s "Maybe", s := { wrap := some true, u := uSch ["User", "Team"] utMap } }]
+      = [(.own (uSch ["User", "Team"] utMap), true, [])] ∧
+    siteVerdict (wSiteSpec [(s "Maybe", {})])
+      [{ id := s "m", pos := .named, holder := s "Maybe", s := { wrap := some false, outerDisc := (uSch [] utMap).disc, u := { anyOf := [s "User", s "Team"] } } }]
+      = [(.own (uSch ["User", "Team"] utMap false), true, [])] := by decide +kernel
+
+theorem cex_site_untyped :
+    siteVerdict (wSiteSpec [holder "Mid"])
+      [{ id := s "m", pos := .field, holder := s "Mid", field := s "f", s := { wrap := some true, u := uSch ["User", "Team"] utMap } }]
+    = [(.value, false, [.siteUntyped])] := by decide +kernel
+
+theorem cex_inline_implicit :
+    siteVerdict { wSiteSpec [holder "Mid"] with schemas := mkMap [leaf "User" (constTag "user"), leaf "Team" (constTag "team"), holder "Mid"] }
+      [{ id := s "m", pos := .field, holder := s "Mid", field := s "f", s := { u := uSch ["User", "Team"] none } }]
+    = [(.own (uSch ["User", "Team"] none), false, [.implicitNotSynth])] := by decide +kernel
+
+theorem cex_named_twin :
+    siteVerdict (wSiteSpec [holder "Mid", (s "Zzz", plainU ["Team", "User"])])
+      [{ id := s "m", pos := .field, holder := s "Mid", field := s "f", s := { u := uSch ["User", "Team"] utMap } }]
+    = [(.named (s "Zzz"), false, [.namedTwin])] := by decide +kernel
+
+theorem cex_inline_twin :
+    siteVerdict (wSiteSpec [holder "Aaa", holder "Mid"])
+      [{ id := s "m", pos := .field, holder := s "Mid", field := s "f", s := { u := uSch ["User", "Team"] utMap } },
+       { id := s "n", pos := .field, holder := s "Aaa", field := s "f", s := { u := uSch ["User", "Team"] (some [("xuser", "User"), ("xteam", "Team")]) } }]
+    = [(.own (uSch ["User", "Team"] (some [("xuser", "User"), ("xteam", "Team")])), true, []),
+       (.earlier (uSch ["User", "Team"] (some [("xuser", "User"), ("xteam", "Team")])), false, [.inlineTwin])] := by decide +kernel
+
+theorem cex_array_wrapper_flattened :
+    siteVerdict (wSiteSpec [(s "Maybe", {})])
+      [{ id := s "m", pos := .named, holder := s "Maybe", s := { arr := true, wrap := some true, u := uSch ["User", "Team"] utMap } }]
+    = [(.own (uSch ["User", "Team"] utMap), false, [.arrayWrapperFlattened])] := by decide +kernel
+
 end Oas3.Props.C14
